@@ -91,6 +91,8 @@ pub struct World {
     pub phc_path: PathBuf,
     leap_cursor: u32,
     pub updates: u64,
+    /// reply instant of the last tracking reply (start of the poller's grace period)
+    last_good_reply: Option<i64>,
 }
 
 pub type SharedWorld = Arc<Mutex<World>>;
@@ -143,6 +145,7 @@ impl World {
             phc_path: sandbox.join("phc_error_bound"),
             leap_cursor: 0,
             updates: 0,
+            last_good_reply: None,
         };
         w.interval_s = *w.crng.pick(&[1.0f64, 2.0, 4.0, 16.0, 64.0, 1.5, 0.25]);
         w.ref_time_ns = (m0 as i128 + cfg.t0_ns as i128 + e0 as i128) - w.crng.range(0, (w.interval_s * 1e9) as i64) as i128;
@@ -366,6 +369,16 @@ impl verif_rt::chrony::ChronySim for Chronyd {
         let mode = w.mode;
         w.pending_mode = mode;
         w.polls.push(PollInfo { q_at: now, r_at: now, mode, tracking: None, phc: PhcState::NotRead, err_at_reply: 0 });
+        // place some failed polls exactly on the 5 s grace boundary (and 1 ns either side)
+        if matches!(mode, Mode::Gone | Mode::NonTracking) && w.cfg.script == 2 && w.crng.chance(40) {
+            if let Some(g) = w.last_good_reply {
+                let target = g + 5_000_000_000 + *w.crng.pick(&[-1i64, 0, 0, 1]);
+                let lat = target - now;
+                if (1_000..2_900_000_000).contains(&lat) {
+                    return lat;
+                }
+            }
+        }
         match mode {
             Mode::Silent => timeout_ns * tries as i64,
             Mode::Gone => w.crng.range(5_000, 200_000),
@@ -443,6 +456,7 @@ impl verif_rt::chrony::ChronySim for Chronyd {
                 let phc = if ref_id == PHC_REFID && w.cfg.phc != 0 { w.write_phc() } else { PhcState::NotRead };
                 w.polls[idx].tracking = Some(info(&t, ref_ns));
                 w.polls[idx].phc = phc;
+                w.last_good_reply = Some(now);
                 Ok(mk(t))
             }
             Mode::Unsync | Mode::Restarting => {
@@ -452,6 +466,7 @@ impl verif_rt::chrony::ChronySim for Chronyd {
                 let phc = if ref_id == PHC_REFID && w.cfg.phc != 0 { w.write_phc() } else { PhcState::NotRead };
                 w.polls[idx].tracking = Some(info(&t, ref_ns));
                 w.polls[idx].phc = phc;
+                w.last_good_reply = Some(now);
                 Ok(mk(t))
             }
         }
